@@ -15,6 +15,7 @@ const (
 	SBool SortKind = iota
 	SBV
 	SInt
+	SFP // IEEE double
 )
 
 type Sort struct {
@@ -28,12 +29,15 @@ func (s Sort) String() string {
 		return "Bool"
 	case SInt:
 		return "Int"
+	case SFP:
+		return "(_ FloatingPoint 11 53)"
 	}
 	return fmt.Sprintf("(_ BitVec %d)", s.W)
 }
 
 var sortBool = Sort{SBool, 0}
 var sortInt = Sort{SInt, 0}
+var sortFP = Sort{SFP, 0}
 
 func bvSort(w int) Sort { return Sort{SBV, w} }
 
@@ -81,6 +85,18 @@ const (
 	OIntNeg
 	OBv2Nat
 	OInt2Bv
+	OFpFromUBV
+	OFpFromSBV
+	OFpAdd
+	OFpSub
+	OFpMul
+	OFpDiv
+	OFpLt
+	OFpLe
+	OFpEq
+	OFpNeg
+	OFpToUBV // p1 = width
+	OFpToSBV
 )
 
 var opNames = map[Op]string{
@@ -808,6 +824,8 @@ func constString(t *Term) string {
 			return "true"
 		}
 		return "false"
+	case SFP:
+		return fmt.Sprintf("(fp #b%d #b%011b #x%013x)", t.val>>63, (t.val>>52)&0x7ff, t.val&((1<<52)-1))
 	case SInt:
 		if t.big.Sign() < 0 {
 			return "(- " + new(big.Int).Neg(t.big).String() + ")"
@@ -858,6 +876,30 @@ func (t *Term) render(args []string) string {
 		return fmt.Sprintf("((_ sign_extend %d) %s)", t.p1, args[0])
 	case OInt2Bv:
 		return fmt.Sprintf("((_ int2bv %d) %s)", t.p1, args[0])
+	case OFpFromUBV:
+		return "((_ to_fp_unsigned 11 53) RNE " + args[0] + ")"
+	case OFpFromSBV:
+		return "((_ to_fp 11 53) RNE " + args[0] + ")"
+	case OFpAdd:
+		return "(fp.add RNE " + args[0] + " " + args[1] + ")"
+	case OFpSub:
+		return "(fp.sub RNE " + args[0] + " " + args[1] + ")"
+	case OFpMul:
+		return "(fp.mul RNE " + args[0] + " " + args[1] + ")"
+	case OFpDiv:
+		return "(fp.div RNE " + args[0] + " " + args[1] + ")"
+	case OFpLt:
+		return "(fp.lt " + args[0] + " " + args[1] + ")"
+	case OFpLe:
+		return "(fp.leq " + args[0] + " " + args[1] + ")"
+	case OFpEq:
+		return "(fp.eq " + args[0] + " " + args[1] + ")"
+	case OFpNeg:
+		return "(fp.neg " + args[0] + ")"
+	case OFpToUBV:
+		return fmt.Sprintf("((_ fp.to_ubv %d) RTZ %s)", t.p1, args[0])
+	case OFpToSBV:
+		return fmt.Sprintf("((_ fp.to_sbv %d) RTZ %s)", t.p1, args[0])
 	}
 	return "(" + opNames[t.op] + " " + strings.Join(args, " ") + ")"
 }
@@ -872,4 +914,14 @@ func (t *Term) String() string {
 		args[i] = a.String()
 	}
 	return t.render(args)
+}
+
+// ---- floating point (IEEE double)
+
+func (c *Ctx) FP(bits uint64) *Term {
+	return &Term{op: OConst, sort: sortFP, val: bits, id: -3, size: 1}
+}
+
+func (c *Ctx) fpOp(op Op, s Sort, p1 int, args ...*Term) *Term {
+	return c.mk(op, s, "", p1, 0, args...)
 }
